@@ -61,21 +61,37 @@ type PathState struct {
 	Events []Event
 	Blocks []int // witness: block indices walked
 	phi    map[*ssa.Phi]ssa.Value
+	mem    map[*ssa.Alloc]ssa.Value // last value stored into tracked local cells on this path
 	Sink   ssa.Instruction
 }
 
 // Resolve maps a value to what it denotes on this path (phi nodes replaced by the incoming operand).
 func (s *PathState) Resolve(v ssa.Value) ssa.Value {
 	for i := 0; i < 32; i++ {
-		p, ok := v.(*ssa.Phi)
-		if !ok {
+		switch x := v.(type) {
+		case *ssa.Phi:
+			r, ok := s.phi[x]
+			if !ok || r == v {
+				return v
+			}
+			v = r
+		case *ssa.UnOp:
+			// load of a tracked local cell (captured variable, named or defer-spilled result)
+			if x.Op != token.MUL {
+				return v
+			}
+			al, ok := x.X.(*ssa.Alloc)
+			if !ok {
+				return v
+			}
+			r, ok := s.mem[al]
+			if !ok || r == v {
+				return v
+			}
+			v = r
+		default:
 			return v
 		}
-		r, ok := s.phi[p]
-		if !ok || r == v {
-			return v
-		}
-		v = r
 	}
 	return v
 }
@@ -196,15 +212,16 @@ func (s *PathState) Witness() string {
 
 // PathQuery describes one exploration.
 type PathQuery struct {
-	Fn        *ssa.Function
-	From      ssa.Instruction              // start right after this instruction (nil: function entry)
-	Sink      func(ssa.Instruction) bool   // a path ends (and is recorded) when it reaches such an instruction
-	Event     func(ssa.Instruction) string // tag instructions of interest ("" = ignore)
-	Relevant  func(cond ssa.Value) bool    // which branch conditions are recorded (nil: all)
-	Cut       func(ssa.Instruction) bool   // a path silently ends at such an instruction (not recorded)
-	Track     []ssa.Value                  // values whose per-path resolution the rule will ask for (their phis join the state key)
-	MaxStates int                          // default 200000
-	Steps     int                          // out: number of (block,state) pairs visited
+	Fn            *ssa.Function
+	From          ssa.Instruction              // start right after this instruction (nil: function entry)
+	Sink          func(ssa.Instruction) bool   // a path ends (and is recorded) when it reaches such an instruction
+	Event         func(ssa.Instruction) string // tag instructions of interest ("" = ignore)
+	Relevant      func(cond ssa.Value) bool    // which branch conditions are recorded (nil: all)
+	Cut           func(ssa.Instruction) bool   // a path silently ends at such an instruction (not recorded)
+	Track         []ssa.Value                  // values whose per-path resolution the rule will ask for (their phis join the state key)
+	KeepLoopFacts bool                         // do not forget loop-local facts on back edges (for single-iteration queries)
+	MaxStates     int                          // default 200000
+	Steps         int                          // out: number of (block,state) pairs visited
 }
 
 type pstate struct {
@@ -236,6 +253,7 @@ func (q *PathQuery) Run() ([]*PathState, error) {
 		}
 	}
 	condPhis := relevantPhis(fn)
+	cells := classifyCells(fn)
 	for _, v := range q.Track {
 		markPhis(condPhis, v, 0)
 	}
@@ -255,7 +273,7 @@ func (q *PathQuery) Run() ([]*PathState, error) {
 			return out, fmt.Errorf("path exploration exceeded %d states in %s", q.MaxStates, fn)
 		}
 		st := cur.st
-		st = &PathState{Lits: st.Lits, Events: st.Events, Blocks: append(append([]int{}, st.Blocks...), cur.blk.Index), phi: st.phi}
+		st = &PathState{Lits: st.Lits, Events: st.Events, Blocks: append(append([]int{}, st.Blocks...), cur.blk.Index), phi: st.phi, mem: st.mem}
 		ended := false
 		for i := cur.idx; i < len(cur.blk.Instrs); i++ {
 			in := cur.blk.Instrs[i]
@@ -273,6 +291,36 @@ func (q *PathQuery) Run() ([]*PathState, error) {
 			if q.Event != nil {
 				if tag := q.Event(in); tag != "" {
 					st.Events = addEvent(st.Events, Event{in, tag})
+				}
+			}
+			switch x := in.(type) {
+			case *ssa.Store:
+				if al, ok := x.Addr.(*ssa.Alloc); ok && cells[al] != cellNone {
+					nm := make(map[*ssa.Alloc]ssa.Value, len(st.mem)+1)
+					for k, v := range st.mem {
+						nm[k] = v
+					}
+					nm[al] = st.Resolve(x.Val)
+					st.mem = nm
+				}
+			case *ssa.RunDefers, *ssa.Call, *ssa.Go, *ssa.Defer:
+				// cells written by a closure may change whenever foreign code runs
+				if len(st.mem) > 0 {
+					var nm map[*ssa.Alloc]ssa.Value
+					for k := range st.mem {
+						if cells[k] == cellVolatile {
+							if nm == nil {
+								nm = make(map[*ssa.Alloc]ssa.Value, len(st.mem))
+								for k2, v2 := range st.mem {
+									nm[k2] = v2
+								}
+							}
+							delete(nm, k)
+						}
+					}
+					if nm != nil {
+						st.mem = nm
+					}
 				}
 			}
 		}
@@ -312,7 +360,7 @@ func addEvent(evs []Event, e Event) []Event {
 
 // enter moves along edge from→to: resolves to's phis (parallel assignment) and forgets loop-local facts on back edges.
 func (q *PathQuery) enter(from, to *ssa.BasicBlock, st *PathState) pstate {
-	ns := &PathState{Lits: st.Lits, Events: st.Events, Blocks: st.Blocks, phi: st.phi}
+	ns := &PathState{Lits: st.Lits, Events: st.Events, Blocks: st.Blocks, phi: st.phi, mem: st.mem}
 	predIdx := -1
 	for i, p := range to.Preds {
 		if p == from {
@@ -341,7 +389,7 @@ func (q *PathQuery) enter(from, to *ssa.BasicBlock, st *PathState) pstate {
 		}
 		ns.phi = nm
 	}
-	if backEdge {
+	if backEdge && !q.KeepLoopFacts {
 		// facts about values computed inside the loop belong to the previous iteration
 		var keep []Lit
 		for _, l := range st.Lits {
@@ -430,7 +478,7 @@ func (q *PathQuery) assume(st *PathState, t *ssa.If, outcome bool) (*PathState, 
 	if q.Relevant != nil && !q.Relevant(t.Cond) && !q.Relevant(cond) {
 		return st, true
 	}
-	ns := &PathState{Lits: append(append([]Lit{}, st.Lits...), lit), Events: st.Events, Blocks: st.Blocks, phi: st.phi}
+	ns := &PathState{Lits: append(append([]Lit{}, st.Lits...), lit), Events: st.Events, Blocks: st.Blocks, phi: st.phi, mem: st.mem}
 	return ns, true
 }
 
@@ -562,6 +610,13 @@ func stateKey(b *ssa.BasicBlock, idx int, st *PathState, condPhis map[*ssa.Phi]b
 	}
 	sort.Strings(ph)
 	sb.WriteString(strings.Join(ph, ","))
+	sb.WriteString("|")
+	var ms []string
+	for a, v := range st.mem {
+		ms = append(ms, fmt.Sprintf("%p=%p", a, v))
+	}
+	sort.Strings(ms)
+	sb.WriteString(strings.Join(ms, ","))
 	return sb.String()
 }
 
@@ -581,4 +636,106 @@ func IsReturn(in ssa.Instruction) bool { _, ok := in.(*ssa.Return); return ok }
 // Is returns a predicate matching exactly one instruction.
 func Is(target ssa.Instruction) func(ssa.Instruction) bool {
 	return func(in ssa.Instruction) bool { return in == target }
+}
+
+// ---- tracked local cells ----
+
+type cellKind int
+
+const (
+	cellNone     cellKind = iota // address escapes: not tracked
+	cellStable                   // only stored/loaded here (closures may read it)
+	cellVolatile                 // some closure writes it: forgotten whenever foreign code runs
+)
+
+// classifyCells finds the local allocations whose content the path search can follow: scalar/pointer/interface
+// cells that are only stored to and loaded from directly, or captured by closures.
+func classifyCells(fn *ssa.Function) map[*ssa.Alloc]cellKind {
+	out := map[*ssa.Alloc]cellKind{}
+	for _, b := range fn.Blocks {
+		for _, in := range b.Instrs {
+			al, ok := in.(*ssa.Alloc)
+			if !ok {
+				continue
+			}
+			kind := cellStable
+			refs := al.Referrers()
+			if refs == nil {
+				continue
+			}
+			for _, r := range *refs {
+				switch x := r.(type) {
+				case *ssa.Store:
+					if x.Addr != al {
+						kind = cellNone // the address itself is stored somewhere
+					}
+				case *ssa.UnOp:
+					if x.Op != token.MUL {
+						kind = cellNone
+					}
+				case *ssa.DebugRef:
+				case *ssa.MakeClosure:
+					if kind != cellNone && closureWrites(x, al) {
+						kind = cellVolatile
+					}
+				default:
+					kind = cellNone
+				}
+				if kind == cellNone {
+					break
+				}
+			}
+			out[al] = kind
+		}
+	}
+	return out
+}
+
+// closureWrites: does the closure (or a nested one) store through the free variable bound to al?
+func closureWrites(mc *ssa.MakeClosure, al *ssa.Alloc) bool {
+	fn, ok := mc.Fn.(*ssa.Function)
+	if !ok {
+		return true
+	}
+	for i, b := range mc.Bindings {
+		if b != al || i >= len(fn.FreeVars) {
+			continue
+		}
+		if freeVarWritten(fn, fn.FreeVars[i], 0) {
+			return true
+		}
+	}
+	return false
+}
+
+func freeVarWritten(fn *ssa.Function, fv *ssa.FreeVar, depth int) bool {
+	if depth > 4 {
+		return true
+	}
+	refs := fv.Referrers()
+	if refs == nil {
+		return false
+	}
+	for _, r := range *refs {
+		switch x := r.(type) {
+		case *ssa.Store:
+			if x.Addr == fv {
+				return true
+			}
+		case *ssa.UnOp, *ssa.DebugRef:
+		case *ssa.MakeClosure:
+			inner, ok := x.Fn.(*ssa.Function)
+			if !ok {
+				return true
+			}
+			for i, b := range x.Bindings {
+				if b == fv && i < len(inner.FreeVars) && freeVarWritten(inner, inner.FreeVars[i], depth+1) {
+					return true
+				}
+			}
+		default:
+			return true
+		}
+	}
+	return false
 }
